@@ -17,9 +17,10 @@ Tie to the source:
       the same request a second time gives the same text and the model's parameters are untouched.
 
 The pinned facts are those of the tree with the three applied repairs (b1ee1b9, 24c6733, 3b18255);
-the snapshot's facts are kept in Coq as regression witnesses (C07_snapshot_*_refuted).  Two more
-facts (`ia`, `untouched`) belong to repairs that are proposed but not yet in /repo: the value the
-check expects is read from coq/codegen/ExpectedFacts.v (tools/c07_switch.py).  Cases inside a
+the snapshot's facts are kept in Coq as regression witnesses (C07_snapshot_*_refuted).  Three more
+facts (`ia`, `untouched`, `bind`) belong to repairs that were / are proposed separately: the value the
+check expects is read from coq/codegen/ExpectedFacts.v (tools/c07_switch.py).  `bind` is the form of
+the argument binding of source_tools.py::fn_to_sympy (coq/codegen/CallArity.v, harness/c07_arity.py).  Cases inside a
 RECORDED finding's guard (known_findings.d/C07.json, `finding_for`) are counted, not reported.
 
 Besides random models the check sweeps the whole function table (harness/c07_fns.py): every
@@ -39,6 +40,7 @@ import signal
 from fractions import Fraction
 from typing import Any
 
+from harness import c07_arity as A
 from harness import c07_exec as X
 from harness import c07_fns as FN
 from harness import c07_gen as G
@@ -215,12 +217,78 @@ _RET = {
     "jl": {"    return {}": "RetBare"},
 }
 
+# ---- the argument binding of source_tools.py::fn_to_sympy (coq/codegen/CallArity.v) --------------
+_BIND_PRE = [
+    "fn_def = get_fn_ast(fn)",
+    "fn_args = [str(arg.arg) for arg in fn_def.args.args]",
+    "sympy_expr = _handle_fn_body(fn_def.body, ctx=Context(symbols={name: sympy.Symbol(name) for name in fn_args}, "
+    "caller=fn, parent_module=inspect.getmodule(fn), origin=origin, modules={}, fns={}))",
+    "if sympy_expr is None:\n    return None",
+    "if isinstance(sympy_expr, float):\n    return sympy.Float(sympy_expr)",
+]
+_BIND_SUBS = "    sympy_expr = sympy_expr.subs(dict(zip(fn_args, model_args, strict=True)), simultaneous=True)"
+_BIND_FORMS = {
+    "if model_args is not None:\n" + _BIND_SUBS: "BkStrict",
+    "if model_args is not None and len(model_args):\n" + _BIND_SUBS: "BkStrictNonEmpty",
+    # zip without strict=True: a parameter that gets no argument stays behind as a bare symbol (seeded C07-6)
+    "if model_args is not None and len(model_args):\n"
+    "    sympy_expr = sympy_expr.subs(dict(zip(fn_args, model_args)), simultaneous=True)": "BkLaxNonEmpty",
+    "if model_args is not None and len(model_args):\n    replacements = dict(zip(fn_args, model_args))\n"
+    "    sympy_expr = sympy_expr.subs(replacements, simultaneous=True)": "BkLaxNonEmpty",
+}
+_BIND_POST = ["return cast(sympy.Expr, sympy_expr)"]
+_BIND_HANDLER = ("(TypeError, ValueError, NotImplementedError)", "return None")
+_HANDLE_NAME = [
+    "value = ctx.symbols.get(node.id)",
+    "if value is None:\n    global_variables = dict(inspect.getmembers(ctx.parent_module, predicate=lambda x: isinstance(x, float)))\n"
+    "    value = sympy.Float(global_variables[node.id])",
+    "return value",
+]
+_HANDLE_CALL_HEAD = [
+    "if node.keywords:\n    msg = '...'\n    raise NotImplementedError(msg)",
+    "model_args: list[sympy.Expr] = []",
+    "for i in node.args:\n    if (expr := _handle_expr(i, ctx)) is None:\n        return None\n    model_args.append(expr)",
+]
+_HANDLE_CALL_TAIL = "return fn_to_sympy(py_fn, origin=ctx.origin, model_args=model_args)"
+
+
+def extract_bind_fact() -> str:
+    """Which form the binding statement of fn_to_sympy has (fail-closed: BkUnknown): the whole try
+    body of fn_to_sympy, its exception handler, _handle_name (a name that is no parameter: KeyError)
+    and the head / the recursive tail of _handle_call must be the modelled ones."""
+    try:
+        tree = ast.parse((common.REPO / "src/mxlpy/meta/source_tools.py").read_text())
+    except (OSError, SyntaxError):
+        return "BkUnknown"
+    fn, hn, hc = (_find(tree, n) for n in ("fn_to_sympy", "_handle_name", "_handle_call"))
+    if fn is None or hn is None or hc is None:
+        return "BkUnknown"
+    tries = [x for x in fn.body if isinstance(x, ast.Try)]
+    rest = [x for x in fn.body if not isinstance(x, ast.Try) and not (isinstance(x, ast.Expr) and isinstance(x.value, ast.Constant))]
+    if len(tries) != 1 or rest or tries[0].orelse or tries[0].finalbody or len(tries[0].handlers) != 1:
+        return "BkUnknown"
+    h = tries[0].handlers[0]
+    if h.type is None or ast.unparse(h.type) != _BIND_HANDLER[0] or ast.unparse(h.body[-1]) != _BIND_HANDLER[1]:
+        return "BkUnknown"
+    body = [ast.unparse(x) for x in tries[0].body]
+    if len(body) != len(_BIND_PRE) + 2 or body[: len(_BIND_PRE)] != _BIND_PRE or body[-1:] != _BIND_POST:
+        return "BkUnknown"
+    if _stmts(hn) != _HANDLE_NAME:
+        return "BkUnknown"
+    sc = _stmts(hc)
+    if sc[:3] != _HANDLE_CALL_HEAD or sc[-1] != _HANDLE_CALL_TAIL:
+        return "BkUnknown"
+    return _BIND_FORMS.get(body[len(_BIND_PRE)], "BkUnknown")
+
+
 def _expected_switch() -> dict[str, str]:
     """the two hand-maintained lines of coq/codegen/ExpectedFacts.v (tools/c07_switch.py)"""
     text = (common.area_dir(AREA) / "ExpectedFacts.v").read_text()
     ia = re.search(r"Definition C07_expected_ia : ia_kind := (\w+)\.", text)
     ut = re.search(r"Definition C07_expected_untouched : ut_kind := (\w+)\.", text)
-    return {"ia": ia.group(1) if ia else "IaUnknown", "untouched": ut.group(1) if ut else "UtUnknown"}
+    bk = re.search(r"Definition C07_expected_bind : bind_kind := (\w+)\.", text)
+    return {"ia": ia.group(1) if ia else "IaUnknown", "untouched": ut.group(1) if ut else "UtUnknown",
+            "bind": bk.group(1) if bk else "BkUnknown"}
 
 
 EXPECTED_FACTS = {
@@ -259,7 +327,7 @@ def extract_facts() -> dict[str, Any]:
     facts: dict[str, Any] = {
         l: ("AsgUnknown", "DsUnknown", "RetUnknown", "false") for l in G.LANGS
     } | {"order": "OrdUnknown", "copy": "false", "shape_ok": "false", "stoich_ok": "false", "printers_ok": "false",
-         "ia": "IaUnknown", "untouched": "UtUnknown"}
+         "ia": "IaUnknown", "untouched": "UtUnknown", "bind": "BkUnknown"}
     try:
         tree = ast.parse((common.REPO / "src/mxlpy/meta/codegen_model.py").read_text())
         tools = ast.parse((common.REPO / "src/mxlpy/meta/sympy_tools.py").read_text())
@@ -333,6 +401,7 @@ def extract_facts() -> dict[str, Any]:
         if len(st) != 1 or not st[0].startswith(f"return cast(str, {printer}(expr"):
             pr_ok = False
     facts["printers_ok"] = "true" if pr_ok else "false"
+    facts["bind"] = extract_bind_fact()
     return facts
 
 
@@ -340,12 +409,14 @@ def gen() -> dict[str, Any]:
     f = extract_facts()
     lf = lambda t: f"(mkLF {t[0]} {t[1]} {t[2]} {t[3]})"  # noqa: E731
     text = (
-        "(* REGENERATED from src/mxlpy/meta/codegen_model.py and sympy_tools.py by harness/c07.py; do not edit.\n"
+        "(* REGENERATED from src/mxlpy/meta/codegen_model.py, sympy_tools.py and source_tools.py by harness/c07.py; do not edit.\n"
         "   An unrecognised shape yields a *Unknown constructor / false, which breaks C07_facts_pinned. *)\n"
-        "From Codegen Require Import Codegen.\n"
+        "From Codegen Require Import Codegen CallArity.\n"
         "Definition gen_codegen_facts : facts :=\n"
         f"  mkFacts {lf(f['py'])} {lf(f['ts'])}\n          {lf(f['rs'])} {lf(f['jl'])}\n"
         f"          {f['order']} {f['copy']} {f['shape_ok']} {f['stoich_ok']} {f['printers_ok']} {f['ia']} {f['untouched']}.\n"
+        "(* the argument binding of src/mxlpy/meta/source_tools.py::fn_to_sympy *)\n"
+        f"Definition gen_bind_fact : bind_kind := {f['bind']}.\n"
     )
     common.write_if_changed(common.area_dir(AREA) / "GenCodegenFacts.v", text)
     return {k: (list(v) if isinstance(v, tuple) else v) for k, v in f.items()}
@@ -448,9 +519,18 @@ def judge(desc: dict, lang: str, obs: dict, execs: list[tuple] | None, refs: lis
     if g[0] == "model":
         return None  # the model itself is rejected: nothing to generate
     if flags["untranslatable"]:
-        if g[0] == "ok":
-            return "a function that fn_to_sympy cannot translate did not make generation raise"
-        return None
+        if g[0] != "ok":
+            return None
+        if not flags["surplus_only"]:
+            does = ""
+            for o, ref in zip(execs or [], refs):
+                if ref is not None and (o[0] != "ok" or list(o[1]) != list(ref)):
+                    got = [str(x) for x in o[1]] if o[0] == "ok" else o[0]
+                    does = f" (the emitted {lang} function gives {got}, the model {[str(x) for x in ref]})"
+                    break
+            return "a function that fn_to_sympy cannot translate did not make generation raise" + does
+        # the only refused functions take *args and ignore them: were code emitted for them, it would
+        # have to agree with the model like any other (judged below)
     if not flags["free_ok"]:
         return None if g[0] != "ok" else "free parameter that is not a plain parameter was accepted"
     if g[0] != "ok":
@@ -496,6 +576,10 @@ def finding_for(desc: dict, lang: str, exec_class: str | None = None) -> str | N
             cands.append("assigned-parameter-reads-free-parameter")  # the emitted value is the one at generation time
     if lang == "rs" and exec_class == "intlit":
         cands.append("rs-integer-literal")
+    if f["empty_call_only"]:
+        # generation does not raise for a call that passes no argument to a function whose parameters
+        # all have defaults (the binding is skipped); comes first: that is what the oracle reports there
+        cands.insert(0, "defaulted-parameters-no-arguments")
     return next((c for c in cands if c in KNOWN_IDS), None)
 
 
@@ -571,6 +655,8 @@ def coq_case(desc: dict, lang: str, obs: dict, sk: dict | None, points: list[tup
         gobs = f"(ObsOk {G.coq_skeleton(sk)})"
     else:
         gobs = {"key": "ObsKey", "untrans": "ObsUntrans", "untranscoef": "ObsUntransCoef"}.get(g, "ObsOther")
+        if translation_keyerror(desc, obs):
+            gobs = "ObsUntransKey"
     pts = []
     for i, (t, y, fv) in enumerate(points):
         ex = None if (skip_exec or execs is None) else execs[i]
@@ -581,11 +667,20 @@ def coq_case(desc: dict, lang: str, obs: dict, sk: dict | None, points: list[tup
     cache = clist(cn(k) for k in obs["cache_after"]) if all(k >= 0 for k in obs["cache_after"]) else "[9999%N]"
     return (
         f"mkCase {G.COQ_LANG[lang]} {G.coq_model(desc)} {clist(map(cn, obs['order']))} {clist(map(cn, desc['free']))}\n"
-        f"    {gobs} {cache} {second_obs(obs)}\n    {clist(pts)}"
+        f"    {gobs} {cache} {second_obs(obs, desc)}\n    {clist(pts)}"
     )
 
 
-def second_obs(obs: dict) -> str:
+def translation_keyerror(desc: dict, obs: dict) -> bool:
+    """generation raised a KeyError although every requested free parameter exists and the model has
+    a function with a keyword-only parameter: the KeyError of fn_to_sympy's global-name lookup (for a
+    derived quantity / a coefficient it leaves generate_model_code_* as it is) -- a refusal whose
+    exception class the Coq model does not describe"""
+    fl = G.shape_flags(desc)
+    return obs["gen"][0] == "key" and fl["free_ok"] and fl["keyerror_refusal"]
+
+
+def second_obs(obs: dict, desc: dict | None = None) -> str:
     """The same request a second time, as the model's vocabulary: the same answer as the first
     time (same text, or the same refusal) / KeyError / anything else (never matches the model)."""
     sec, g = obs.get("second"), obs["gen"][0]
@@ -595,6 +690,8 @@ def second_obs(obs: dict) -> str:
         return "SecSame"
     if sec[0] == "raised":
         if sec[1] == "KeyError":
+            if desc is not None and translation_keyerror(desc, obs):
+                return "SecSame"  # the same refusal again
             return "SecKey"
         if (sec[1], g) in (("ValueError", "untrans"), ("TypeError", "untranscoef")):
             return "SecSame"
@@ -606,10 +703,10 @@ def corr_file(cases: list[str]) -> str:
     names = "; ".join(f"case_{i}" for i in range(len(cases)))
     return (
         "From Coq Require Import List NArith ZArith QArith.\nFrom MxlBase Require Import ListX.\n"
-        "From Codegen Require Import Codegen CodegenSpec GenCodegenFacts CgInst.\nImport ListNotations.\nOpen Scope Q_scope.\n"
+        "From Codegen Require Import Codegen CodegenSpec CallArity GenCodegenFacts CgInst.\nImport ListNotations.\nOpen Scope Q_scope.\n"
         + defs
         + f"\nDefinition cases : list ccase := [{names}].\n"
-        "Definition mismatches := mismatches_of gen_codegen_facts cases.\nEval vm_compute in mismatches.\n"
+        "Definition mismatches := mismatches_of gen_bind_fact gen_codegen_facts cases.\nEval vm_compute in mismatches.\n"
     )
 
 
@@ -711,7 +808,10 @@ def check(run: Run) -> None:
     KNOWN_IDS.update(f["id"] for f in common.load_known_findings("C07"))
     run.rule = (
         "corpus + function-table sweep (every translatable function as rate / derived quantity / computed coefficient over "
-        "free parameters, evaluated on both sides of every condition of its source) + random surrogate-free models (1-3 "
+        "free parameters, evaluated on both sides of every condition of its source) + refusal sweep (every untranslatable "
+        "function of the table, incl. the ten refused by arity -- default values relied on, keyword-only parameters, *args, "
+        "empty argument lists --, as rate / derived quantity / coefficient, with and without a model component named like the "
+        "helper's defaulted parameter) + random surrogate-free models (1-3 "
         "parameters incl. assignment-defined ones, 0-3 variables, 1-7 derived/reactions in random declaration order, derived "
         "reading reactions, integer/fractional/computed coefficients incl. parameter-only ones with a free parameter called "
         "off its stored value, conditionals in return position and branch-local reassignment of locals, untranslatable "
@@ -720,12 +820,13 @@ def check(run: Run) -> None:
     )
     proofs_ok = run.check_proofs(AREA, PROPS)
     run.assumptions += [
-        "Coq 8.16.1 kernel + vm_compute; all 20 statements of PropsC07.v closed under the global context (see trusted_base)",
+        "Coq 8.16.1 kernel + vm_compute; all 31 statements of PropsC07.v closed under the global context (see trusted_base)",
         "coq/codegen/ExpectedFacts.v (hand-maintained, tools/c07_switch.py): which form of the two places with a proposed, not yet applied repair (assignment-defined parameters, variables without a reaction) the regenerated facts are pinned to; the recorded findings list decides which failures are counted instead of reported",
         "hypothesis C06 of C07_equiv_partial: per-function translation soundness (property C06) -- the inlined target expression of a translated function has the value of the Python function; fn_to_sympy, SymPy's simplifier and its py/js/rust/julia printers are covered by that hypothesis, not verified (validated on every case by executing the emitted text)",
         "hypothesis ValidOrder: the order read from the model's cache lists every derived quantity/reaction after what it reads (what C02 proves of the sorter); Resolved is the specification of 'what the model returns' (C01), compared with Model.__call__ on every case (aspect 3 of the correspondence)",
         "guards of C07_equiv_partial = complement of the recorded findings: L <> Julia, at least one variable, every variable acted on by a reaction (or: the tree writes the explicit zero and some reaction acts on something), no assignment-defined parameter (or: the tree emits them with the value the model holds -- then their value is taken as given: an assignment that reads a requested free parameter is outside the Coq model and never generated); unique parameter names (dict keys)",
         "function table harness/c07_fns.py mirrored by hand in coq/codegen/CgInst.v (fsemQ/translatesQ); aspect 3 of the correspondence (specification vs Model.__call__) compares the two tables on every case, the sweep on both sides of every condition of every function",
+        "binding model coq/codegen/CallArity.v: covers the argument-binding statement of fn_to_sympy only (bodies: + - * over names and numbers, at most one helper call); tied by extract_bind_fact (fn_to_sympy's try-body and handler, _handle_name, head/tail of _handle_call; fail-closed) and by the arity correspondence harness/c07_arity.py, which regenerates the functions' descriptions from their Python source and runs the REAL fn_to_sympy; coq/codegen/ExpectedFacts.v::C07_expected_bind (hand-maintained, tools/c07_switch.py bind) says which form the tree has; a refusal through KeyError (keyword-only parameter) is observed as ObsUntransKey: the exception class of that refusal is not modelled",
         "fact extractor harness/c07.py::extract_facts (fail-closed ast matcher, whole-function normalised comparison); skeleton reader harness/c07_exec.py",
         "executors: CPython exec, node (type annotations stripped by a regex), rustc (thorough tier; one witness per quick run), a Julia-SUBSET interpreter written for this check (Julia is not installed)",
         "floating point: all generated values are small dyadic rationals and the functions polynomial/piecewise linear, so binary64 evaluation is exact; rounding is outside the model",
@@ -743,6 +844,11 @@ def check(run: Run) -> None:
     sweep, sweep_stats = G.sweep_cases(common.rng_for(run.seed, "c07-sweep"))
     run.coverage["function_table_sweep"] = sweep_stats
     descs += sweep
+    # every function fn_to_sympy has to refuse, in every position, with and without a model component
+    # named like the helpers' defaulted parameter
+    refusal, refusal_stats = G.refusal_sweep_cases()
+    run.coverage["refusal_sweep"] = refusal_stats
+    descs += refusal
     for i in range(n_models):
         descs.append(G.gen_desc(rng, profile="clean" if i % 3 == 0 else None))
     work = common.scratch_dir("c07")
@@ -800,6 +906,8 @@ def _check_body(run: Run, rng, descs: list[dict], langs, work, proofs_ok: bool) 
         ):
             dist["free_parameter_in_parameter_only_coefficient_called_off_stored_value"] = (
                 dist.get("free_parameter_in_parameter_only_coefficient_called_off_stored_value", 0) + 1)
+        if any(f in FN.BY_ARITY_REFUSED for f in _fids(desc)):
+            dist["function_refused_by_arity"] = dist.get("function_refused_by_arity", 0) + 1
         if any(f in FN.LOCAL_ASSIGNMENT for f in _fids(desc)):
             dist["function_with_local_reassignment"] = dist.get("function_with_local_reassignment", 0) + 1
         dist[f"n_var={flags['n_var']}"] = dist.get(f"n_var={flags['n_var']}", 0) + 1
@@ -842,6 +950,11 @@ def _check_body(run: Run, rng, descs: list[dict], langs, work, proofs_ok: bool) 
             flags["n_var"] == 0 or flags["uncovered"] or flags["no_equation"]
         ):
             skip_exec = True
+        # a text emitted although the function had to be refused (empty argument list, recorded finding):
+        # it reads a name that is no argument of the inlined function -- outside the model's `exec`
+        # (the same for any text emitted for a function refused by arity, should a changed tree emit one)
+        if flags["empty_call"] or any(f in FN.BY_ARITY_REFUSED for f in _fids(desc)):
+            skip_exec = True
         coq_cases.append(coq_case(desc, lang, obs, sk, c["points"], c["refs"], ex, skip_exec))
         if len(run.samples) < 3 and obs["gen"] == ("ok",) and flags["n_var"] >= 2 and not bad:
             run.sample({"lang": lang, "model": describe(desc), "text": obs["text"], "state": points_to_json(c["points"][:1]),
@@ -874,6 +987,7 @@ def _check_body(run: Run, rng, descs: list[dict], langs, work, proofs_ok: bool) 
                 )
     run.coverage["traces_validated_against_impl"] = len(cases) - mism
     run.coverage["correspondence_mismatches"] = mism
+    _arity_correspondence(run)
 
     # known findings: replay every witness
     for f in common.load_known_findings("C07"):
@@ -888,6 +1002,33 @@ def _check_body(run: Run, rng, descs: list[dict], langs, work, proofs_ok: bool) 
             run.note(f"known finding {f['id']}: witness could not be replayed: {type(e).__name__}: {e}")
     if not proofs_ok:
         run.note("proof obligations broken; the generated models were searched with the oracle for a concrete failing input")
+
+
+def _arity_correspondence(run: Run) -> None:
+    """the model of fn_to_sympy's argument binding (coq/codegen/CallArity.v) against the real
+    fn_to_sympy: harness/c07_arity.py"""
+    try:
+        terms, info = A.cases()
+    except ValueError as e:
+        run.broken_correspondence.append(f"arity correspondence: a function of harness/c07_fns.py is not of the described shape: {e}")
+        return
+    res = common.coq_eval_many(AREA, {"c07_arity": A.corr_file(terms)}, timeout_s=600)
+    ok, out = res["c07_arity"]
+    lists = common.parse_eval_list(out) if ok else None
+    if not ok or lists is None or not lists:
+        run.broken_correspondence.append(f"arity correspondence did not evaluate: {out[-300:]}")
+        return
+    for codev in lists[-1]:
+        j, aspect = divmod(codev, 8)
+        if len(run.broken_correspondence) < 8:
+            run.broken_correspondence.append(
+                f"binding model and fn_to_sympy disagree on {A.ASPECT.get(aspect, aspect)}: {info[j]}")
+    run.coverage["arity_correspondence"] = {
+        "cases": len(terms), "mismatches": len(lists[-1]),
+        "refused": sum(1 for i in info if i["fn_to_sympy"] != "expression"),
+        "accepted_with_a_parameter_left_behind": [f"{i['fn']}/{i['model_arguments']}: {i['text']}" for i in info
+                                                  if i["fn_to_sympy"] == "expression" and any(k < 9000 or k > 9100 for k in i["free_symbols"])],
+    }
 
 
 def replay(rep: dict) -> int:
